@@ -121,7 +121,12 @@ def run(F, rep, tier, allfacts):
     clos = [cn for cn, cf in cg.fns.items() if cf["kind"] == "Closure" and cf.get("parent") == n]
     mirror = [cn for cn in clos if call_blocks(cg.fns[cn], r"RuntimeBalances::set_memory_balance_inner$")]
     maps = [[describe(f, a, depth=8) for a in args] for i, c, args, *_ in calls(f) if callee_matches(c, r"Option.*::map$")]
-    rep.check(len(mirror) == 1 and len(maps) >= 1 and any("and_then(" in m[0] for m in maps), "MIRROR-balances", "checked_balance_sub:mirrors-into-memory",
+    # the decreased balance (result of the checked_sub in the and_then closure) is what is mirrored: through `.map(|b| set_memory_balance_inner(b, ..))`
+    # or directly `set_memory_balance_inner(updated, memory)` with `updated` taken from that and_then(..)
+    direct = [[describe(f, a, depth=14) for a in args] for i, c, args, *_ in calls(f) if callee_matches(c, r"RuntimeBalances::set_memory_balance_inner$")]
+    ok_closure = len(mirror) == 1 and len(maps) >= 1 and any("and_then(" in m[0] for m in maps)
+    ok_direct = len(direct) == 1 and "and_then(" in direct[0][0] and not mirror
+    rep.check(ok_closure or ok_direct, "MIRROR-balances", "checked_balance_sub:mirrors-into-memory",
               "%s:%s" % (f["file"], f["line"]), "the decreased balance must be written to VM memory (set_memory_balance_inner) in the same expression")
     sn, sf = F.find(r"^" + re.escape(bal) + r"RuntimeBalances::set_memory_balance_inner$", ["fuel_vm"], one=True)
     w = [[describe(sf, a, depth=10) for a in args] for i, c, args, *_ in calls(sf) if callee_matches(c, r"write_bytes_noownerchecks$")]
